@@ -5,6 +5,7 @@ specification `occurrenceMass`, plus the AST-level corollaries (hydrate parts, g
 -/
 import ChemModel.Proofs.Periodic
 import ChemModel.Proofs.FormulaSuffix
+import ChemModel.Proofs.FormulaFormat
 import Mathlib.Algebra.BigOperators.Group.Finset.Piecewise
 import Mathlib.Algebra.BigOperators.Ring.Finset
 
@@ -182,13 +183,55 @@ theorem formulaMass_render (f : Formula) (h : f.WF) : formulaMass f.renderStr = 
   rw [hc']
   simp only [mass_of_agrees f h c ha]
 
-theorem defaultPhases_suffixes : defaultPhases ++ [['(', 'a', 'q', ')']] = suffixesL := by decide
+theorem defaultPhases_extra : defaultPhases ++ speciesExtraSuffixes = suffixesL := by decide
+
+theorem speciesExtra_sub : ∀ s ∈ speciesExtraSuffixes, s ∈ suffixesL := by decide
+theorem speciesExtra_eq : speciesExtraSuffixes = [['(', 'a', 'q', ')']] := by decide
+
+/-- `mass_from_composition(formula_to_composition(text, suffixes=sfxs))` on a rendered well-formed formula does not depend
+    on the suffix list, as long as the list is drawn from the default vocabulary and contains the written suffix -/
+theorem formulaMassWith_render (f : Formula) (h : f.WF) (sfxs : List (List Char))
+    (hok : ChemModel.FormulaFormat.SfxOK sfxs f) :
+    formulaMassWith prefixesL sfxs f.renderStr.toList = .ok (occurrenceMass f) := by
+  have hd := Formula.Formula.wfd f h
+  have hr : f.renderStr.toList = f.render := by
+    simp only [Formula.Formula.renderStr, String.toList_ofList]
+  have hparts : Formula.formulaToCompositionWith prefixesL sfxs f.render
+      = Formula.formulaToCompositionWith prefixesL suffixesL f.render := by
+    unfold Formula.formulaToCompositionWith
+    rw [ChemModel.FormulaFormat.formulaToParts_render' f hd sfxs hok,
+      ChemModel.FormulaFormat.formulaToParts_render' f hd suffixesL (ChemModel.FormulaFormat.sfxOK_default f hd)]
+  have h0 := formulaMass_render f h
+  unfold formulaMass at h0
+  unfold formulaMassWith at h0 ⊢
+  rw [hr] at h0 ⊢
+  rw [hparts]
+  exact h0
+
+/-- `Species.from_formula(render f, phases).mass` for any `phases` over the default suffix vocabulary that (together
+    with "(aq)") contain the written suffix -/
+theorem speciesMass_render_gen (f : Formula) (h : f.WF) (phases : List (List Char))
+    (hsub : ∀ s ∈ phases, s ∈ suffixesL)
+    (hmem : ∀ s, f.suffix = some s → s ∈ phases ∨ s = ['(', 'a', 'q', ')']) :
+    speciesMass phases f.renderStr = .ok (occurrenceMass f) := by
+  unfold speciesMass
+  apply formulaMassWith_render f h
+  refine ⟨fun s hs => ?_, fun s hs => ?_⟩
+  · rcases List.mem_append.mp hs with h1 | h1
+    · exact hsub s h1
+    · exact speciesExtra_sub s h1
+  · rcases hmem s hs with h1 | h1
+    · exact List.mem_append.mpr (Or.inl h1)
+    · exact List.mem_append.mpr (Or.inr (by rw [speciesExtra_eq, h1]; exact List.mem_singleton.mpr rfl))
 
 theorem speciesMass_render (f : Formula) (h : f.WF) :
     speciesMass defaultPhases f.renderStr = .ok (occurrenceMass f) := by
   unfold speciesMass
-  rw [defaultPhases_suffixes]
+  rw [defaultPhases_extra]
   exact formulaMass_render f h
+
+theorem soluteMass_render (f : Formula) (h : f.WF) : soluteMass f.renderStr = .ok (occurrenceMass f) :=
+  formulaMass_render f h
 
 /-- when does `Substance.from_formula(s).mass` return at all -/
 theorem formulaMass_ok_iff (s : String) :
@@ -246,5 +289,22 @@ theorem occurrenceMass_charge (f : Formula) (c : Charge) (hc : f.charge = some c
   rw [h1, h2]
   simp only [Formula.Formula.occurrences]
   ring
+
+/-- all hydrate parts: the occurrence sum splits into leading count × the part's own occurrence sum -/
+theorem lin_parts (ps : List Part) :
+    lin stdWeight (ps.flatMap fun p => p.terms.occ p.mult)
+      = (ps.map fun p => p.mult * occurrenceMass (bareFormula p.terms)).sum := by
+  induction ps with
+  | nil => rfl
+  | cons p r ih =>
+    rw [List.flatMap_cons, lin_append, ih, List.map_cons, List.sum_cons, occurrenceMass_bare,
+      lin_occ_scale stdWeight p.terms p.mult]
+
+theorem occurrenceMass_parts (f : Formula) :
+    occurrenceMass f = (f.parts.map fun p => p.mult * occurrenceMass (bareFormula p.terms)).sum
+      - f.denote 0 * electronMass := by
+  rw [occurrenceMass_eq]
+  unfold Formula.Formula.occurrences
+  rw [lin_parts]
 
 end ChemModel.Periodic
